@@ -370,9 +370,9 @@ def run(ctx):
     else:
         q = ctx.quick()
         cases = corpus() + ctx_cases() + fixed_cases(q, ctx.rng) + fixed_chains(q)
-        cases += [gen_chain(ctx.rng) for _ in range(400 if q else 6000)]
-        cases += [gen_hostcase(ctx.rng) for _ in range(500 if q else 5000)]
-        cases += [{"kind": "ipparse", "s": gen_ipstring(ctx.rng)} for _ in range(500 if q else 6000)]
+        cases += [gen_chain(ctx.rng) for _ in range(400 if q else 4000)]
+        cases += [gen_hostcase(ctx.rng) for _ in range(500 if q else 3000)]
+        cases += [{"kind": "ipparse", "s": gen_ipstring(ctx.rng)} for _ in range(500 if q else 4000)]
     for i, c in enumerate(cases):
         c["id"] = i
     stats, distinct = evaluate(ctx, cases)
